@@ -158,26 +158,18 @@ theorem routes_agree (q : Req) (len : Option Nat) (hv : Valid q len = true)
     route r q len = .ok (encode q (resultLen q len)) := by
   exact routes_agree' q len hv r ha
 
-/-
-  Full statement (fails on the unchanged tree):
-    theorem route_ok_length (r) (q) (len) (n) (b) (hr : r ≠ .prop) (hn : bitLen q len = some n)
-        (h : route r q len = .ok b) : b.length = n
--/
-/-- Whenever a creation route that is given a length succeeds, the result has that many bits —
-    outside the region `kw_length_ignored`. -/
-theorem route_ok_length_partial (r : Route) (q : Req) (len : Option Nat) (n : Nat) (b : Bits)
-    (hr : r ≠ .prop) (hreg : kw_length_ignored r q len = false)
-    (hn : bitLen q len = some n) (h : route r q len = .ok b) : b.length = n := by
-  exact route_ok_length_partial' r q len n b hr hreg hn h
+/-- "Exactly the requested number of bits", for every input (valid or not): whenever a creation route that is
+    given a length succeeds, the result has that many bits. (`prop` is the plain property assignment, which is given
+    no length.) Before the fix b88b583 this failed for the keyword routes with hex/oct/bin/bits/bytes<n> values. -/
+theorem route_ok_length (r : Route) (q : Req) (len : Option Nat) (n : Nat) (b : Bits)
+    (hr : r ≠ .prop) (hn : bitLen q len = some n) (h : route r q len = .ok b) : b.length = n := by
+  exact route_ok_length' r q len n b hr hn h
 
-/-- Witness that the full statement fails inside the region: `Bits(hex='ff', length=4)` has 8 bits
-    while every checking route rejects the request. -/
-theorem kw_length_ignored_witness :
-    route .kw (.str .hex ['f', 'f']) (some 4) = .ok (List.replicate 8 true) ∧
-    route .nameLen (.str .hex ['f', 'f']) (some 4) = .ok (List.replicate 8 true) ∧
-    route .build (.str .hex ['f', 'f']) (some 4) = .error .value ∧
-    kw_length_ignored .kw (.str .hex ['f', 'f']) (some 4) = true := by
-  decide
+/-- The former deviation (`Bits(hex='ff', length=4)` had 8 bits) is gone: every route rejects the request. -/
+theorem kw_length_checked_witness :
+    ∀ r : Route, r ≠ .prop → route r (.str .hex ['f', 'f']) (some 4) = .error .value := by
+  intro r hr
+  cases r <;> first | exact absurd rfl hr | decide
 
 /-! ### reading: every route gives the value the pattern denotes -/
 
@@ -227,6 +219,6 @@ example : Valid (.str .hex "0x_Ff 0".toList) (some 12) = true := by decide
 example : route .propLen (.str .hex "0x_Ff 0".toList) (some 12) = .ok (natToBits 12 0xff0) := by decide
 example : ValidLen .uintle 16 = true ∧ reader .unpack .uintle (some 16) (natToBits 16 0x0102) = .ok (.int 0x0201) := by decide
 example : reqOfValue .oct (decodeSpec .oct (natToBits 6 0o17)) = some (.str .oct ['1', '7']) := by decide
-example : kw_length_ignored .build (.str .hex ['f', 'f']) (some 4) = false := by decide
+example : route .kw (.str .hex ['f']) (some 4) = .ok [true, true, true, true] := by decide
 
 end BM.C02
